@@ -28,9 +28,13 @@ Theorem C18_builder_partition : forall (pol : policy) es bl maxv nk,
 Proof. exact build_partition. Qed.
 Print Assumptions C18_builder_partition.
 
-(* the coded policy is one instance *)
-Example C18_coded_policy_instance : forall bs enc, exists pol : policy, pol = should_finish_block bs enc.
-Proof. intros bs enc. now exists (should_finish_block bs enc). Qed.
+(* the coded policy (shouldFinishBlock with its uint32 casts and assertions) is one instance; it
+   never trips an assertion while three times the entries' size stays below 2^32 *)
+Theorem C18_coded_builder_total : forall bs enc es,
+  Forall (fun e : kv => wf_key (fst e)) es -> N.of_nat (3 * tsize es + 64) < two32 ->
+  exists r, build (should_finish_block bs enc) es = Some r.
+Proof. exact build_coded_total. Qed.
+Print Assumptions C18_coded_builder_total.
 
 (* ---------- C18_setidx ---------- *)
 (* after ANY sequence of setIdx calls on a block (any indices, valid or not, in any order — as the
